@@ -84,6 +84,7 @@ func init() {
 
 func (c *context) RecvMsg() (*protocol.Message, error) {
 	s := c.s
+	tq := nilQ
 
 	for {
 		s.Lock()
@@ -92,7 +93,6 @@ func (c *context) RecvMsg() (*protocol.Message, error) {
 			return nil, protocol.ErrClosed
 		}
 		cq := c.closeQ
-		tq := nilQ
 		rq := s.recvQ
 		zq := s.sizeQ
 		expTime := c.recvExpire
@@ -100,7 +100,8 @@ func (c *context) RecvMsg() (*protocol.Message, error) {
 		c.recvPipe = nil
 		s.Unlock()
 
-		if expTime > 0 {
+		if expTime > 0 && tq == nil {
+			// armed once: a queue resize must not restart the deadline
 			tq = time.After(expTime)
 		}
 
